@@ -3,6 +3,7 @@ package main
 import (
 	"fmt"
 	"go/token"
+	"go/types"
 	"strings"
 
 	"golang.org/x/tools/go/ssa"
@@ -453,6 +454,24 @@ func ruleNonEmptyCreate(c *Ctx) {
 	}
 	bad := map[*MutSite]bool{}
 	seen := map[string]bool{}
+	// a template that runs a function it was given between the creation and the insertion
+	// (`updateField(key, field, next func(old string, exists bool) (string, status))`): whether the path without an insertion
+	// exists depends on what that function answers for a field that is not there — not decided here
+	viaCallback := func(s *MutSite) bool {
+		after := reachableFrom(s.In.Block(), nil)
+		for _, in := range instrsOf(s.Fn) {
+			call, ok := in.(*ssa.Call)
+			if !ok || !(after[call.Block()] || call.Block() == s.In.Block()) {
+				continue
+			}
+			if p, isParam := call.Call.Value.(*ssa.Parameter); isParam {
+				if _, isSig := p.Type().Underlying().(*types.Signature); isSig {
+					return true
+				}
+			}
+		}
+		return false
+	}
 	for _, l := range cm.Uncovered(func(s *MutSite) bool { return sel[s] }) {
 		bad[l.site] = true
 		key := fnName(l.at) + ":" + l.site.key()
@@ -460,6 +479,10 @@ func ruleNonEmptyCreate(c *Ctx) {
 			continue
 		}
 		seen[key] = true
+		if viaCallback(l.site) {
+			c.S.Trivial("A4-nonempty-create", key, c.Pos(c.InstrPos(l.site.In)), "not decided: between the creation and the insertion the function runs a callback it was given, and the exit without an insertion depends on the callback's answer")
+			continue
+		}
 		c.S.Bad("A4-nonempty-create", key, c.Pos(c.InstrPos(l.site.In)),
 			fmt.Sprintf("%s creates a key with an empty aggregate and some path through %s%s ends the critical section without inserting an element: the key exists empty (EXISTS 1, TYPE list/hash/set)", fnName(l.site.Fn), fnName(l.at), chainString(l.chain)))
 	}
